@@ -30,7 +30,7 @@ ASSUMPTIONS = [
     "chromatic membership is only defined for non-negative systems with finite upper bounds (the API refuses the rest)",
 ]
 BOUNDS = {
-    "quick": "12 shapes up to 4x6, 2-3 capture matrices each, bounds x K x baseline with <= 2 deviations from default, <= ~250 targets per system",
+    "quick": "12 shapes up to 4x6, 2-3 capture matrices each, bounds x K x baseline with <= 2 deviations from default, <= ~250 targets per system; the plain systems again in capture units x1e-4, x1e4",
     "thorough": "all shapes 1..5 x 1..8, full cross product of bounds x K x baseline",
 }
 CAP_S = {"quick": 600, "thorough": 5400}
